@@ -145,7 +145,15 @@ impl History {
                 b,
                 // one detection in five is submitted without a custom object id (after others that
                 // had one): the record has to echo the absence as well
-                custom: if (s.t as u32 + 7 * k as u32 + s.feat_var as u32) % 5 == 0 { None } else { Some(custom_base + k as i64) },
+                // (and one in thirteen carries an id a caller may well use but an implementation
+                // might reserve: -1, 0, the extremes)
+                custom: if (s.t as u32 + 7 * k as u32 + s.feat_var as u32) % 5 == 0 {
+                    None
+                } else if (s.t as u32 + 3 * k as u32 + s.feat_var as u32) % 13 == 1 {
+                    Some([-1i64, 0, i64::MIN, i64::MAX, -2][(s.feat_var % 5) as usize])
+                } else {
+                    Some(custom_base + k as i64)
+                },
                 feat: if self.cfg.kind.is_visual() && s.has_feat { Some(feature(proto, s.feat_var, self.feat_dim.max(1))) } else { None },
                 q: if self.cfg.kind.is_visual() { s.quality } else { None },
             });
